@@ -520,3 +520,65 @@ Definition svg_width_px (o : svg_oracle) (styled_lines : list (list (sstyle * li
                    | None => 0
                    end in
   N.max (svg_o_ceil84 o max_width) (svg_o_min_width o) + svg_padding * 2.
+
+(* ---- the WHOLE `struct Term` (tools/gen_fn_svg.py: Term::new, the builders, impl Default) ----
+   The record above ([svg_term]) carries the four fields the abstract document depends on; this one has
+   every field of the Rust struct, in declaration order, with the colours as the translated code sees them
+   ([color] of Spec/Lossy).  Definitions only; nothing above changes meaning. *)
+Record svg_term_full : Set := mkSvgTermFull {
+  svg_tf_palette : list rgb;          (* palette: Palette *)
+  svg_tf_fg_color : color;            (* fg_color: anstyle::Color *)
+  svg_tf_bg_color : color;            (* bg_color: anstyle::Color *)
+  svg_tf_background : bool;           (* background: bool *)
+  svg_tf_font_family : list N;        (* font_family: &'static str *)
+  svg_tf_min_width_px : N;            (* min_width_px: usize *)
+  svg_tf_padding_px : N               (* padding_px: usize *)
+}.
+
+Definition set_svg_tf_palette (t : svg_term_full) (v : list rgb) : svg_term_full :=
+  mkSvgTermFull v (svg_tf_fg_color t) (svg_tf_bg_color t) (svg_tf_background t) (svg_tf_font_family t) (svg_tf_min_width_px t) (svg_tf_padding_px t).
+Definition set_svg_tf_fg_color (t : svg_term_full) (v : color) : svg_term_full :=
+  mkSvgTermFull (svg_tf_palette t) v (svg_tf_bg_color t) (svg_tf_background t) (svg_tf_font_family t) (svg_tf_min_width_px t) (svg_tf_padding_px t).
+Definition set_svg_tf_bg_color (t : svg_term_full) (v : color) : svg_term_full :=
+  mkSvgTermFull (svg_tf_palette t) (svg_tf_fg_color t) v (svg_tf_background t) (svg_tf_font_family t) (svg_tf_min_width_px t) (svg_tf_padding_px t).
+Definition set_svg_tf_background (t : svg_term_full) (v : bool) : svg_term_full :=
+  mkSvgTermFull (svg_tf_palette t) (svg_tf_fg_color t) (svg_tf_bg_color t) v (svg_tf_font_family t) (svg_tf_min_width_px t) (svg_tf_padding_px t).
+Definition set_svg_tf_font_family (t : svg_term_full) (v : list N) : svg_term_full :=
+  mkSvgTermFull (svg_tf_palette t) (svg_tf_fg_color t) (svg_tf_bg_color t) (svg_tf_background t) v (svg_tf_min_width_px t) (svg_tf_padding_px t).
+Definition set_svg_tf_min_width_px (t : svg_term_full) (v : N) : svg_term_full :=
+  mkSvgTermFull (svg_tf_palette t) (svg_tf_fg_color t) (svg_tf_bg_color t) (svg_tf_background t) (svg_tf_font_family t) v (svg_tf_padding_px t).
+Definition set_svg_tf_padding_px (t : svg_term_full) (v : N) : svg_term_full :=
+  mkSvgTermFull (svg_tf_palette t) (svg_tf_fg_color t) (svg_tf_bg_color t) (svg_tf_background t) (svg_tf_font_family t) (svg_tf_min_width_px t) v.
+
+(* projection to the hand model: the record [svg_doc] / the translated render_svg take, and the oracle whose
+   [svg_o_min_width] is the one field that record leaves out *)
+Definition svg_tf_term (t : svg_term_full) : svg_term :=
+  mkSvgTerm (svg_tf_palette t) (svg_of_color (svg_tf_fg_color t)) (svg_of_color (svg_tf_bg_color t)) (svg_tf_background t).
+Definition svg_tf_oracle (uw : list N -> N) (ceil84 : N -> N) (t : svg_term_full) : svg_oracle :=
+  mkSvgOracle uw ceil84 (svg_tf_min_width_px t).
+
+(* the two fields without a setter hold the constants tools/gen_svg.py reads from Term::new
+   (what [svg_t_font_family] / [svg_t_padding] assume) *)
+Definition svg_tf_consts (t : svg_term_full) : Prop :=
+  svg_tf_font_family t = svg_font_family /\ svg_tf_padding_px t = svg_padding.
+
+(* Term::new() as the hand model states it, over the whole record *)
+Definition svg_term_full_new : svg_term_full :=
+  mkSvgTermFull vga (Ansi svg_default_fg_ansi) (Ansi svg_default_bg_ansi) true svg_font_family svg_min_width svg_padding.
+
+(* one builder call `Term::<b>(self, x)`, and a chain of them applied to a term *)
+Inductive svg_builder : Set :=
+| SbPalette (p : list rgb)
+| SbFgColor (c : color)
+| SbBgColor (c : color)
+| SbBackground (b : bool)
+| SbMinWidthPx (n : N).
+Definition svg_build1 (t : svg_term_full) (b : svg_builder) : svg_term_full :=
+  match b with
+  | SbPalette p => set_svg_tf_palette t p
+  | SbFgColor c => set_svg_tf_fg_color t c
+  | SbBgColor c => set_svg_tf_bg_color t c
+  | SbBackground y => set_svg_tf_background t y
+  | SbMinWidthPx n => set_svg_tf_min_width_px t n
+  end.
+Definition svg_build (t : svg_term_full) (bs : list svg_builder) : svg_term_full := fold_left svg_build1 bs t.
